@@ -268,6 +268,13 @@ def stepLine (line : String) : String :=
         Events.record st.1 st.2.1 dup b (st.2.2.map (fun e => (e.1, ({ root := e.2, success := true, gm := 0, gc := 0, gp := 0, fields := [], direction := 0, terminal := false } : Events.Probe Float))))) b0
       showList (fun (e : Nat × Float) => s!"{e.1}@{showFloatBits e.2}") b.events
     | _, _, _ => bad
+  -- dense <backward 0/1> <q> <tEval> : find_interval / find_interval_vec
+  | ["dense", b, q, ts] =>
+    match parseFloatBits? q, parseList? parseFloatBits? ts with
+    | some q, some ts => if ts.isEmpty then bad else
+      let r := Dense.findArr ts.toArray (b == "1") q
+      s!"{r.1} {r.2}"
+    | _, _ => bad
   -- nlfront <path m|h> <tolEps> <m: succ:noimp:res> <h: resBelow:stepBelow:trustBelow:dxn:res> <n: succ:res> <desiredTol>
   | ["nlfront", path, tolEps, m, h, n, dtol] =>
     let b (s : String) : Bool := s == "1"
